@@ -68,6 +68,8 @@ def templates():
     add("unknownView", "describeTarget", "table", (1, 2, 3), "describe view {XV}", "describe-view")
     add("unknownSchema", "ddlTarget", "table", (2, 3), "create table {X} (a int)", "create-table")
     add("unknownDatabase", "ddlTarget", "table", (3,), "create table {X} (a int)", "create-table")
+    add("unknownSchema", "ddlTarget", "table", (2, 3), "create table {X} (a varchar(5)) comment = 'c'", "create-table-varchar-comment")
+    add("unknownDatabase", "ddlTarget", "table", (3,), "create table {X} (a varchar(5)) comment = 'c'", "create-table-varchar-comment")
     add("unknownSchema", "ddlTarget", "schema", (1,), "drop schema nos", "drop-schema")
     add("unknownSchema", "ddlTarget", "schema", (2,), "drop schema db1.nos", "drop-schema")
     add("unknownDatabase", "ddlTarget", "schema", (2,), "drop schema nodb.s1", "drop-schema")
@@ -96,6 +98,11 @@ def templates():
         add("wrongValueCount", "dmlTarget", "table", q3, "insert into {T} select a from {T2}", "insert-select")
         add("existsTable", "ddlTarget", "table", q3, "create table {T} (a int)", "create-table")
         add("existsTable", "ddlTarget", "table", q3, "create view {T} as select 1 a", "create-view-over-table")
+        # failing DDL that carries side-table bookkeeping (comment, VARCHAR lengths): nothing of it may stick
+        add("existsTable", "ddlTarget", "table", q3, "create table {T} (a int) comment = 'new'", "create-table-comment")
+        add("existsTable", "ddlTarget", "table", q3, "create table {TV} (s varchar(99), n int)", "create-table-varchar")
+        add("existsTable", "ddlTarget", "table", q3, "create table {TV} (s varchar(5), z varchar(6)) comment = 'new'", "create-table-varchar-comment")
+        add("existsColumn", "ddlTarget", "table", q3, "alter table {TV} add column s varchar(42)", "alter-add-varchar")
         add("existsView", "ddlTarget", "table", q3, "create view {V} as select 1 a", "create-view")
         add("existsColumn", "ddlTarget", "table", q3, "alter table {T} add column a int", "alter-add")
         add("wrongKind", "ddlTarget", "table", q3, "drop view {T}", "drop-view-of-table")
@@ -147,7 +154,7 @@ NO_SCHEMA_STATES = ("TF", "FF", "DS", "DSQ", "DSI")
 def render(t):
     q, cause = t["qual"], t["cause"]
     x = _name("t", q, cause) if "{X}" in t["fmt"] and cause in TABLE_CAUSES else ""
-    return t["fmt"].format(X=x, XV=_name("nov", q), T=_name("t", q), T2=_name("t2", q), V=_name("v", q), N=_name("n1", q))
+    return t["fmt"].format(X=x, XV=_name("nov", q), T=_name("t", q), T2=_name("t2", q), V=_name("v", q), N=_name("n1", q), TV=_name("tv", q))
 
 
 MULTI = [
@@ -163,6 +170,25 @@ def is_first_qual(tpls, t):
     return t["qual"] == min(u["qual"] for u in tpls if (u["fmt"], u["cause"]) == (t["fmt"], t["cause"]))
 
 
+# CTEs: only unqualified REAL table references need a current database / schema; a reference to the statement's own CTE needs none.
+# wire `X:` = the table expression the pre-check looks at is a CTE reference.
+def _cte(sql, state, spec, note):
+    return {"kind": "scenops", "sql": sql, "ops": "X:0:0:-:11.9.-.-", "spec": spec, "state": state, "tx": False, "note": note}
+
+
+CTE_CASES = [
+    _cte("with c as (select * from db1.s1.t) select a from c", "TT", "ok", "pure CTE over a fully qualified table"),
+    _cte("with c as (select * from db1.s1.t) select a from c", "TF", "ok", "pure CTE over a fully qualified table"),
+    _cte("with c as (select * from db1.s1.t) select a from c", "FF", "ok", "pure CTE over a fully qualified table"),
+    _cte("with t2 as (select * from s1.t2 where a > 0) select a from t2", "TT", "ok", "CTE named like the table it reads"),
+    _cte("with t2 as (select * from s1.t2 where a > 0) select a from t2", "TF", "ok", "CTE named like the table it reads (schema-qualified: the database is current)"),
+    _cte("with t2 as (select * from s1.t2 where a > 0) select a from t2", "FF", "P:90105:22000", "CTE named like the table it reads: s1.t2 needs a current database"),
+    _cte("with t as (select * from db1.s1.t) select x.a from t x join s1.t2 y on x.a = y.a", "FF", "P:90105:22000", "a real schema-qualified table next to the CTE"),
+    _cte("with t as (select * from db1.s1.t) select x.a from t x join t2 y on x.a = y.a", "TF", "P:90106:22000", "a real unqualified table next to the CTE"),
+    _cte("with t2 as (select 1 a) select a from t2", "FF", "ok", "CTE without any table, named like a real table"),
+]
+
+
 def scen_cases():
     cases = []
     tpls = templates()
@@ -170,6 +196,8 @@ def scen_cases():
         for st in SCEN_STATES:
             if t["variant"].startswith("would-succeed") and st not in NO_SCHEMA_STATES:
                 continue  # statements that are only wrong because the session lacks the schema / database they need
+            if any(w in t["variant"] for w in ("-comment", "-varchar")) and st not in ("TT", "FF"):
+                continue  # the side-table variants matter where the statement reaches the engine (TT, and FF with a full name); keep the table small
             if t["variant"].startswith("would-succeed-db-") and st != "FF":
                 continue  # ... these lack only a database
             if st == "DS" and t["qual"] != 1:
@@ -194,7 +222,8 @@ def scen_cases():
 # real runs
 # ------------------------------------------------------------------------------------------------
 FIXTURE = ["create table t (a int, b int)", "insert into t values (1, 2)", "create table t2 (a int)", "insert into t2 values (1)",
-           "create view v as select * from db1.s1.t", "create schema s2", "create database db2", ]
+           "create view v as select * from db1.s1.t", "create schema s2", "create database db2",
+           "comment on table t is 'orig'", "create table tv (s varchar(7), n int) comment = 'tv-orig'"]
 
 
 def enc_exc(e) -> str:
@@ -231,19 +260,28 @@ def snapshot(conn, observer):
         "t": _q(oc, "select * from db1.s1.t order by 1, 2"),
         "t2": _q(oc, "select * from db1.s1.t2 order by 1"),
         "side_tables": _q(oc, "select * from db1.information_schema._fs_tables_ext order by 1, 2, 3"),
+        "side_columns": _q(oc, "select * from db1.information_schema._fs_columns_ext order by 1, 2, 3, 4"),
+        "comments": _q(oc, "select table_name, comment from db1.information_schema.tables where table_schema = 'S1' order by 1"),
+        "lengths": _q(oc, "select table_name, column_name, character_maximum_length from db1.information_schema.columns where table_schema = 'S1' and table_name = 'TV' order by 1, 2"),
     }
     return snap
 
 
-def _real_scen(case):
+def _real_scen(case, shared=None):
+    """`shared` = the fixture connection of an instance that earlier scenarios left exactly as it was (their snapshots say so): this scenario
+    gets its own new connection there.  Scenarios that legitimately change something (finding positions, multi-call) run on a fresh instance."""
+    import contextlib
     import fakesnow
     import snowflake.connector
-    with fakesnow.patch():
-        c0 = snowflake.connector.connect(database="db1", schema="s1")
-        k = c0.cursor()
-        for s in FIXTURE:
-            k.execute(s)
-        conn = c0 if case["state"] == "TT" else snowflake.connector.connect(**STATES[case["state"]][2])
+    with (contextlib.nullcontext() if shared else fakesnow.patch()):
+        if shared:
+            c0 = shared
+        else:
+            c0 = snowflake.connector.connect(database="db1", schema="s1")
+            k = c0.cursor()
+            for s in FIXTURE:
+                k.execute(s)
+        conn = c0 if (case["state"] == "TT" and not shared) else snowflake.connector.connect(**STATES[case["state"]][2])
         for q in STATE_SETUP.get(case["state"], []):
             conn.cursor().execute(q)
         conn.cursor().execute("set v1 = 5")
@@ -336,7 +374,7 @@ CONN_USES = {
     "write_pandas(conn, df, 'T9', auto_create_table=True)": "u:00.0.-.-,00.0.-.-", "conn.cursor().executemany(insert, 2 rows)": "u:11.0.-.-,11.0.-.-",
     "conn.cursor().describe('select * from t')": "u:11.0.-.-",
 }
-OTHERS = ["fetchall", "fetchone", "description", "rowcount", "fetchmany"]
+OTHERS = ["fetchall", "fetchone", "description", "rowcount", "fetchmany", "cursor.close()", "with contextlib.closing(cursor)"]
 
 
 def conn_use(conn, name):
@@ -372,6 +410,10 @@ def designed_seqs():
     out.append({"kind": "seq", "ops": tmp + [["y", "drop table tmpx"], ["D", "dropped-table"], ["o", "fetchall"], ["x", "ok-const"], ["D", "plain"]]})
     out.append({"kind": "seq", "ops": tmp + [["y", "alter table tmpx drop column a"], ["D", "dropped-column"], ["x", "fail-table"], ["D", "dropped-column"]]})
     out.append({"kind": "seq", "ops": tmp + [["y", "drop table tmpx"], ["c", "close"], ["D", "dropped-table"]]})
+    # closing the CURSOR is not an execute: the sqlstate of the failed statement stays readable
+    for a in ("fail-table", "fail-column", "undefined-var", "ok-select"):
+        for cl in ("cursor.close()", "with contextlib.closing(cursor)"):
+            out.append({"kind": "seq", "ops": [["x", a], ["o", cl], ["o", "rowcount"], ["o", cl], ["x", "ok-const"], ["x", "fail-values"], ["o", cl]]})
     # any use of a closed connection
     for u in CONN_USES:
         out.append({"kind": "seq", "ops": [["x", "fail-table"], ["K", u], ["c", "close"], ["K", u], ["o", "fetchall"], ["K", u]]})
@@ -470,6 +512,12 @@ def _real_seq(case, shared=None):
                     cur.rowcount
                 elif name == "description":
                     cur.description
+                elif name == "cursor.close()":
+                    cur.close()
+                elif name == "with contextlib.closing(cursor)":
+                    import contextlib
+                    with contextlib.closing(cur):
+                        pass
             except Exception as e:
                 outcome = enc_exc(e) if kind in ("x", "B", "D", "K") else "-"
             out.append([outcome, cur.sqlstate])
@@ -492,6 +540,14 @@ def _worker(shard):
                 k.execute(s)
             for i in share:
                 out[i] = _real_seq(shard[i], shared=True)
+    share = [i for i, c in enumerate(shard) if c["kind"] == "scen" and c["pos"] not in FINDING_POS]
+    if share:
+        with fakesnow.patch():
+            c0 = snowflake.connector.connect(database="db1", schema="s1")
+            for s in FIXTURE:
+                c0.cursor().execute(s)
+            for i in share:
+                out[i] = _real_scen(shard[i], shared=c0)
     for i, c in enumerate(shard):
         if i not in out:
             out[i] = (_real_seq if c["kind"] == "seq" else _real_scen)(c)
@@ -502,7 +558,8 @@ def _lines(cases):
     out = []
     for c in cases:
         if c["kind"] == "scenops":
-            out.append("\t".join(["err", "ops", "1", "1", "V1", c["ops"]]))
+            a, b, _ = STATES[c["state"]]
+            out.append("\t".join(["err", "ops", "1" if a else "0", "1" if b else "0", "V1", c["ops"]]))
         elif c["kind"] == "scen":
             a, b, _ = STATES[c["state"]]
             out.append("\t".join(["err", "scen", c["cause"], c["pos"], c["refKind"], str(c["qual"]), "1" if a else "0", "1" if b else "0"]))
@@ -603,7 +660,7 @@ def run(chk) -> None:
     cases = _corpus()
     chk.extra["corpus_cases"] = len(cases)
     scen = scen_cases()
-    cases += scen + MULTI + seq_cases(chk)
+    cases += scen + MULTI + CTE_CASES + seq_cases(chk)
     chk.rule = ("A: every template of the cause x position table (13 causes, 10 positions, FROM/JOIN/subquery/CTE/IN, DML targets and sources, DDL targets "
                 "and sources, USE, DESCRIBE, COMMENT, SHOW, DROP DATABASE) x every qualification level x 3 session states x outside/inside a transaction, "
                 "fresh instance each, full before/after state snapshot + usability afterwards; B: all ordered pairs of 17 statement kinds with fetch/description "
